@@ -313,7 +313,7 @@ func codecPolicies(t *rapid.T, w *gen.World) []Named {
 
 func TestPolicyCodecs(t *testing.T) {
 	ev.SetChecks(ev.Scale(240, 2000))
-	rapid.Check(t, func(rt *rapid.T) {
+	ev.Check(t, func(rt *rapid.T) {
 		w := engineeredWorld(rt)
 		c := &Case{Family: "policy-codec", R: R()}
 		c.Policies = codecPolicies(rt, &w)
@@ -423,7 +423,7 @@ var collide = []ir.Value{ir.Bool(false), ir.Long(0), ir.Decimal(0), ir.Duration(
 
 func TestDataCodecs(t *testing.T) {
 	ev.SetChecks(ev.Scale(240, 2000))
-	rapid.Check(t, func(rt *rapid.T) {
+	ev.Check(t, func(rt *rapid.T) {
 		w := engineeredWorld(rt)
 		// entity uids that collide under a naive rendering (type and id concatenated without quoting / escaping)
 		if rapid.IntRange(0, 2).Draw(rt, "hostileuids") > 0 {
@@ -653,7 +653,7 @@ func checkSchema(c *Case) (sub, msg string) {
 
 func TestSchemaCodecs(t *testing.T) {
 	ev.SetChecks(ev.Scale(120, 3000))
-	rapid.Check(t, func(rt *rapid.T) {
+	ev.Check(t, func(rt *rapid.T) {
 		keep := []bool{true, rapid.Bool().Draw(rt, "ns1"), rapid.Bool().Draw(rt, "nsab"), rapid.Bool().Draw(rt, "extra")}
 		var o1, o2 [][]int
 		for _, b := range schemaBlocks {
